@@ -557,8 +557,13 @@ func main() {
 			continue
 		}
 		ev := h.check(c, "random")
-		if c.Note == "sandwich" {
-			run.Count("gen:sandwich:" + ev.Status)
+		if devN > 0 && ev.Status == "rejected" && os.Getenv("C01_DEV_REJECTS") != "" && strings.Contains(c.Note, os.Getenv("C01_DEV_REJECTS")) {
+			fmt.Fprintf(os.Stderr, "REJECT [%s] %s\n  %s\n", c.Note, ev.Detail, c.Query)
+		}
+		for _, cl := range strings.Split(c.Note, "+") {
+			if cl != "" {
+				run.Count("gen:" + cl + ":" + ev.Status)
+			}
 		}
 		if c.CloneOf != nil {
 			run.Count("gen:clone-edit-rebuild:" + ev.Status)
@@ -584,6 +589,19 @@ func randomCase(r *hx.Rand) *Case {
 		// type conditions with equally long sub-selections (merged lists that differ only in the middle)
 		note = "sandwich"
 	}
+	// input classes drawn inside the generators (gqlgen/classes.go, worldgen.go)
+	for _, cl := range req.Classes {
+		if note != "" {
+			note += "+"
+		}
+		note += cl
+	}
+	if s.HasLongNames() {
+		if note != "" {
+			note += "+"
+		}
+		note += "long-schema-names"
+	}
 	c := &Case{Schema: s, Doc: req.Doc, Layout: gqlgen.RandomLayout(r), Variables: req.Variables, OpName: req.OpName, Note: note}
 	c.Query = req.Doc.Print(c.Layout)
 	op := req.Doc.SelectedOp(req.OpName)
@@ -599,6 +617,12 @@ func randomCase(r *hx.Rand) *Case {
 		}
 	}
 	c.World = gqlgen.RandomWorld(r, s, req, op)
+	if c.World.HasOverlap() {
+		if c.Note != "" {
+			c.Note += "+"
+		}
+		c.Note += "overlapping-istypeof"
+	}
 	return c
 }
 
